@@ -21,7 +21,10 @@ KMax == EnvInt("LIFE_KMAX", 6)
 KFull == EnvInt("LIFE_KFULL", 6)     \* every count of the window up to this k
 NLabels == EnvInt("LIFE_NLABELS", 1)
 
-Hash(a, b, k) == (a * 7919 + b * 104729 + Seed * 611953 + k * 15485863) % 1000003
+\* (every product stays below 2^31: TLC integers are 32 bit)
+SeedR == Seed % 1000
+Hash(a, b, k) == (((a % 10007) * 7919) + ((b % 10009) * 10473) + (SeedR * 611953)
+                  + ((k % 100) * 15485863)) % 1000003
 
 (* ------------------------------ labels --------------------------------- *)
 L1 == <<108, 105, 102, 101, 45, 65>>      \* "life-A"
@@ -88,7 +91,7 @@ C02Pick(p, j) == IF UserWitnesses(p) <= 64 THEN TRUE ELSE Hash(j, 0, 3) % 40 = 0
 \* splices: every single field, every pair, the round-aligned blocks, a seeded
 \* sample of larger subsets, nothing and everything
 Blocks == { 0..3, {4}, 5..8, 9..10, 11..25, 0..10, 11..17, 18..21, 22..25 }
-Mix(i, t) == ((((i * 7919 + t * 104729 + Seed * 611953) % 1009) * (i + t + 17)) % 97) % 5
+Mix(i, t) == (((((i * 7919) + ((t % 1000) * 104729) + (SeedR * 611953)) % 1009) * (i + (t % 1000) + 17)) % 97) % 5
 Sampled == { { i \in 0..25 : Mix(i, t) < 1 + (t % 4) } : t \in 1..EnvInt("LIFE_NSPLICE", 24) }
 C02Splices ==
   { {i} : i \in 0..25 } \cup { {x[1], x[2]} : x \in { y \in (0..25) \X (0..25) : y[1] < y[2] } }
